@@ -53,6 +53,44 @@ pub struct Case {
     pub seed: u64,
     pub direct: bool,
     pub below: u8,
+    /// added to every finite objective value
+    #[serde(default)]
+    pub base: Fb,
+    /// per individual (cyclic): move the objective value by that many representable values (i8::MIN: flip the sign
+    /// of a zero); empty = none
+    #[serde(default)]
+    pub nudges: Vec<i8>,
+}
+
+/// objective value of individual `idx` of the case
+fn obj_of(c: &Case, idx: usize) -> f64 {
+    let v = objv(c.pop[idx].1, c.scale.f());
+    if !v.is_finite() {
+        return v;
+    }
+    let mut v = v + c.base.f();
+    if !c.nudges.is_empty() {
+        let k = c.nudges[idx % c.nudges.len()];
+        if k == i8::MIN {
+            if v == 0.0 {
+                v = -v;
+            }
+        } else {
+            for _ in 0..k.unsigned_abs() {
+                v = if k > 0 { next_up(v) } else { -next_up(-v) };
+            }
+        }
+    }
+    v
+}
+fn next_up(x: f64) -> f64 {
+    if x == 0.0 {
+        f64::from_bits(1)
+    } else if x > 0.0 {
+        f64::from_bits(x.to_bits() + 1)
+    } else {
+        f64::from_bits(x.to_bits() - 1)
+    }
 }
 
 fn objv(o: i8, scale: f64) -> f64 {
@@ -115,6 +153,8 @@ const CL_INF: u64 = 32;
 const CL_NEG: u64 = 64;
 const CL_POP3: u64 = 128;
 const CL_N_EQ_LEN: u64 = 256;
+const CL_NEAR_TIE: u64 = 512;
+const CL_SIGNED_ZEROS: u64 = 1024;
 
 impl Check for SelCheck {
     type Case = Case;
@@ -122,7 +162,7 @@ impl Check for SelCheck {
         "C11/selection".into()
     }
     fn classes(&self) -> &'static [&'static str] {
-        &["tied objectives", "duplicate by value", "requested 0", "documented unusable input", "via Selection::select", "+inf objective", "negative objective", "population >= 3", "requested == population size"]
+        &["tied objectives", "duplicate by value", "requested 0", "documented unusable input", "via Selection::select", "+inf objective", "negative objective", "population >= 3", "requested == population size", "distinct objective values within a few representable values of each other", "zeros of both signs"]
     }
     fn oracle(&self, c: &Case) -> Outcome {
         let mut cl = 0;
@@ -146,7 +186,17 @@ fn oracle(c: &Case, cl: &mut u64) -> Result<(), Failure> {
     if outside_domain(&c.op, pop).is_some() {
         return Ok(());
     }
-    let objs: Vec<f64> = pop.iter().map(|i| objv(i.1, scale)).collect();
+    let objs: Vec<f64> = (0..n).map(|i| obj_of(c, i)).collect();
+    {
+        let fin: Vec<f64> = objs.iter().cloned().filter(|o| o.is_finite()).collect();
+        let (lo, hi) = (fin.iter().cloned().fold(f64::INFINITY, f64::min), fin.iter().cloned().fold(f64::NEG_INFINITY, f64::max));
+        if !fin.is_empty() && lo != hi && (hi - lo) <= 4.0 * f64::EPSILON * hi.abs().max(lo.abs()) {
+            *cl |= CL_NEAR_TIE;
+        }
+        if objs.iter().any(|o| *o == 0.0 && o.is_sign_negative()) && objs.iter().any(|o| *o == 0.0 && o.is_sign_positive()) {
+            *cl |= CL_SIGNED_ZEROS;
+        }
+    }
     if (0..n).any(|i| (0..i).any(|j| objs[i] == objs[j] && pop[i].0 != pop[j].0)) {
         *cl |= CL_TIE;
     }
@@ -172,8 +222,8 @@ fn oracle(c: &Case, cl: &mut u64) -> Result<(), Failure> {
         *cl |= CL_DIRECT;
     }
     let name = op_name(&c.op);
-    let at = format!("{:?} on population {:?} (scale {scale:?}, seed {})", c.op, pop, c.seed);
-    let source: Vec<Individual<RealP>> = pop.iter().map(|i| mk(i, scale)).collect();
+    let at = format!("{:?} on population {:?} (scale {scale:?}, base {:?}, nudges {:?}: objective values {objs:?}; seed {})", c.op, pop, c.base, c.nudges, c.seed);
+    let source: Vec<Individual<RealP>> = pop.iter().zip(&objs).map(|(i, o)| Individual::new(vec![i.0 as f64], (*o).try_into().unwrap())).collect();
     let src_view: Vec<V> = source.iter().map(view).collect();
     let problem = RealP::new(1, 0.0, 1.0, RealKind::Tag);
 
@@ -558,7 +608,25 @@ fn op_strategy() -> impl Strategy<Value = Op> {
 }
 
 fn case_strategy() -> impl Strategy<Value = Case> {
-    (op_strategy(), pop_strategy(), prop_oneof![Just(1.0), Just(1e-6), Just(1e6), Just(0.25)], any::<u64>(), any::<bool>(), 0u8..3, any::<u8>()).prop_map(|(op, mut pop, scale, seed, direct, below, fit)| {
+    let fine = prop_oneof![
+        // ordinary case: integers times scale
+        6 => Just((1.0f64, 0.0f64, Vec::<i8>::new(), false)),
+        // all objective values within a few representable values of a base value
+        2 => (prop_oneof![Just(1.0f64), Just(-1024.0), Just(0.0), Just(3.5e9), Just(-1e-3)], proptest::collection::vec(prop_oneof![3 => Just(0i8), 2 => Just(1i8), 1 => Just(-1i8), 1 => Just(2i8)], 1..5)).prop_map(|(b, n)| (0.0, b, n, true)),
+        // zeros of both signs
+        1 => proptest::collection::vec(prop_oneof![Just(0i8), Just(i8::MIN)], 1..4).prop_map(|n| (0.0, 0.0, n, true)),
+        // ordinary values with occasional nudges
+        1 => (prop_oneof![Just(0.0f64), Just(1.0)], proptest::collection::vec(-2i8..3, 1..5)).prop_map(|(b, n)| (1.0, b, n, false)),
+    ];
+    (op_strategy(), pop_strategy(), prop_oneof![Just(1.0), Just(1e-6), Just(1e6), Just(0.25)], any::<u64>(), any::<bool>(), 0u8..3, any::<u8>(), fine).prop_map(|(op, mut pop, scale, seed, direct, below, fit, (mult, base, nudges, finite_only))| {
+        let scale = scale * mult;
+        if finite_only {
+            for p in pop.iter_mut() {
+                if p.1 == i8::MAX {
+                    p.1 = 0;
+                }
+            }
+        }
         // steer some cases to the boundary sizes
         match &op {
             Op::RandomWithoutRepetition(k) | Op::Tournament(_, k) if fit % 3 == 0 => {
@@ -567,7 +635,7 @@ fn case_strategy() -> impl Strategy<Value = Case> {
             Op::CloneSingle(_) if fit % 2 == 0 => pop.truncate(1),
             _ => {}
         }
-        Case { op, pop, scale: Fb::of(scale), seed, direct, below }
+        Case { op, pop, scale: Fb::of(scale), seed, direct, below, base: Fb::of(base), nudges }
     })
 }
 
